@@ -101,7 +101,8 @@ def run(pid, tier, seed, workdir, replay, skip_lean, t0):
     audit = {"obligations": 0, "discharged": 0, "theorems": [], "missing_required": []}
     build_log = ""
     if not skip_lean:
-        targets = [f"PdeVerif.Props.{pid}", "PdeVerif.Drv.All"]
+        extra = list(getattr(mod, "EXTRA_PROP_FILES", ()))
+        targets = [f"PdeVerif.Props.{pid}", "PdeVerif.Drv.All"] + [f"PdeVerif.Props.{m}" for m in extra]
         ok, build_log, bt = lean.lake_build(targets)
         if not ok:
             gen_mods = getattr(mod, "GENERATED_DEPENDENT", None)
@@ -113,14 +114,14 @@ def run(pid, tier, seed, workdir, replay, skip_lean, t0):
             hits = lean.forbidden_tokens()
             if hits:
                 raise lean.BrokenCheck(f"forbidden constructs in Lean sources: {hits[:5]}")
-            audit = lean.audit(pid, workdir, getattr(mod, "REQUIRED_THEOREMS", ()))
+            audit = lean.audit(pid, workdir, getattr(mod, "REQUIRED_THEOREMS", ()), extra)
             if not audit["raw_ok"]:
                 raise lean.BrokenCheck("axiom audit failed:\n" + audit["raw"][-2000:])
             bad = [t for t in audit["theorems"] if not t["ok"]]
             if bad or audit["missing_required"]:
                 raise lean.BrokenCheck(f"proof audit: bad axioms {bad[:5]} missing {audit['missing_required']}")
             if tier == "thorough" and os.environ.get("VERIF_SKIP_LEANCHECKER") != "1":
-                okc, outc = lean.leanchecker([f"PdeVerif.Props.{pid}"])
+                okc, outc = lean.leanchecker([f"PdeVerif.Props.{pid}"] + [f"PdeVerif.Props.{m}" for m in extra])
                 ctx.extra["leanchecker"] = "ok" if okc else outc
                 if not okc:
                     raise lean.BrokenCheck("leanchecker rejected the compiled proofs:\n" + outc)
